@@ -220,6 +220,27 @@ def run(repo, rep, tier):
     from . import c09 as _c09
     L.borrow(repo, rep, "R02.1", "C09", _c09.element_details,
              ("quote-when-computed",))
+    # the needs-escape pre-check is a regex search: its result is compared
+    # with None (with anything else every value would take the escaping
+    # path, and a character no entity exists for comes out as '&#0;')
+    qf = None
+    mod_ = repo.module("chameleon.compiler")
+    fac_ = L.interp(repo)._factory(
+        mod_.assigns["emit_func_convert_and_escape"][-1], mod_,
+        "emit_func_convert_and_escape")
+    if fac_ is None:
+        raise AnalysisError("emit_func_convert_and_escape vanished")
+    import textwrap as _tw
+    qt = ast.parse(_tw.dedent(fac_.node[1]["source"]))
+    pre = [n for n in ast.walk(qt) if isinstance(n, ast.Compare)
+           and "needs_escape" in src(n.left)]
+    rep.check(bool(pre) and all(
+        len(c.ops) == 1 and isinstance(c.ops[0], (ast.IsNot, ast.Is))
+        and isinstance(c.comparators[0], ast.Constant)
+        and c.comparators[0].value is None for c in pre), "R02.4",
+        "chameleon.compiler.emit_func_convert_and_escape", "the result of "
+        "the needs-escape search is tested against None",
+        construct="precheck-none", detail=str([src(c) for c in pre]))
     L.state_rule(repo, rep)
 
 
